@@ -8,6 +8,7 @@ float is the float nearest to the model's exact decimal result.
 """
 import functools
 import math
+import sys
 from decimal import Decimal
 from fractions import Fraction
 
@@ -32,7 +33,8 @@ RULE = ('each function of the family called through its excel_math_func wrapper 
         'to 10^6, j 0..6, digits -6..6, and binary floats sampled by bit pattern / uniform (sent as their repr '
         'decimal). Malformed stream: blank, logical, text, error operands in every position, fractional digits, zero '
         'significance. Totality block: digit counts 27..400 / -27..-400 and huge / tiny numbers through every '
-        'function (a number or #NUM!, never an exception). Sequence block: each unusual call (raises, error value, '
+        'function (a number or #NUM!, never an exception). Boundary block: doubles next to x.5 at every scale, whole numbers around 2^51..2^54 as int and as float, '
+        'smallest / largest doubles, -0.0, digits 0 and ±1, every function. Sequence block: each unusual call (raises, error value, '
         'text / logical operand, zero significance, #NUM! corner, ±1e10 digits) runs as `prelude` in the same process '
         'right before each ordinary tie case of every function, and the other way round; only the last call is '
         'compared, so state leaking between calls shows on an ordinary case and the replay names the preceding call. '
@@ -48,7 +50,7 @@ ASSUMPTIONS = [
 ]
 TRUSTED = ['modelled, not verified: CPython float<->decimal conversion (repr, float(Decimal)), Decimal.quantize, '
            'Fraction arithmetic, math.floor/ceil']
-REQUIRED_BUCKETS = ['via-formula', 'extreme', 'sequence', 'round:tie', 'round:neg-digits-tie', 'round:other', 'roundup', 'rounddown', 'trunc', 'int', 'mod',
+REQUIRED_BUCKETS = ['via-formula', 'extreme', 'sequence', 'boundary', 'round:tie', 'round:neg-digits-tie', 'round:other', 'roundup', 'rounddown', 'trunc', 'int', 'mod',
                     'ceiling', 'floor', 'ceiling_math', 'floor_math', 'ceiling_precise', 'floor_precise', 'even',
                     'odd', 'malformed', 'binary-float']
 EXHAUSTIVE = False
@@ -180,6 +182,36 @@ def _ordinary_calls():
          _c('mod', 1, -3), _c('int', '-2.5'), _c('int', '2.5'), _c('even', '2.5'), _c('even', '-2.5'), _c('even', 1),
          _c('odd', '2.5'), _c('odd', '-2.5'), _c('odd', 0), _c('odd', 2)]
     return o
+
+
+def _boundary_floats():
+    """doubles at which binary arithmetic and the decimal reading part ways"""
+    out = []
+    for h in (0.5, 1.5, 2.5, 3.5, 0.05, 0.15, 0.25, 5.0, 15.0, 25.0, 50.0, 0.005, 1.005, 2.675):
+        out += [h, math.nextafter(h, math.inf), math.nextafter(h, -math.inf)]
+    for k in range(-6, 7):
+        for h in (0.5, 1.5, 2.5):
+            v = float(f'{h}e{k}')
+            out += [v, math.nextafter(v, math.inf), math.nextafter(v, -math.inf)]
+    for base in (2 ** 51, 2 ** 52, 2 ** 53, 2 ** 54):
+        for k in range(-3, 4):
+            out.append(float(base + k))
+            out.append(float(base) + k * 0.5 if base <= 2 ** 52 else float(base + 2 * k))
+            if base == 2 ** 51:
+                out.append(float(base) + k * 0.25)
+    for k in range(1, 8):
+        out.append(float(2 ** 52) - k * 0.5)
+        out.append(float(2 ** 53) - k)
+    out += [sys.float_info.min, sys.float_info.max, 5e-324, math.nextafter(sys.float_info.max, 0),
+            math.nextafter(1.0, 0), math.nextafter(1.0, 2), math.nextafter(2.0, 0), 0.1 + 0.2, 1.1 * 3,
+            1e15 + 0.5, 1e15 - 0.5, 1e16, 1e16 + 2, 9007199254740993.0, 4503599627370497.0, 4503599627370495.5]
+    seen, res = set(), []
+    for v in out:
+        for w in (v, -v):
+            if w not in seen and w == w and abs(w) != math.inf:
+                seen.add(w)
+                res.append(w)
+    return res
 
 
 def _round_points(thorough, rng):
@@ -317,6 +349,42 @@ def _cases(tier, rng):
         s = tok(rng.choice(sigs))
         for fn in SIG6 + ('mod',):
             yield from out(emit(fn, x, s, src='float'))
+    # --- float boundaries (deterministic): doubles next to x.5, whole numbers around 2^52 / 2^53 (as int and as float),
+    #     smallest / largest doubles, -0.0; digits 0 and ±1 through every function
+    bseen = set()
+
+    def bemit(fn, *args, **flags):
+        key = (fn, args, tuple(sorted(flags)))
+        if key in bseen or any(_is_num(a) and not _faithful(_fr(a)) for a in args):
+            return []
+        bseen.add(key)
+        return [dict(case(fn, *args), src='boundary', **flags)]
+
+    for f in _boundary_floats():
+        x = tok(float_decimal(f))
+        flag_sets = [{}]
+        if f == int(f) and abs(f) < 1e300 and Fraction(int(f)) == float_decimal(f):
+            # hand the whole number over as a float as well as an int (only where the float's shortest repr shows every
+            # digit of its value: past 2^53 pycel's int() coercion reads the binary value, not the shortest repr)
+            flag_sets.append({'float': True})
+        for flags in flag_sets:
+            for fn in ROUND4:
+                for d in ('n:0/1', 'n:1/1', 'n:-1/1'):
+                    yield from bemit(fn, x, d, **flags)
+            for fn in ('round', 'trunc', 'int', 'even', 'odd', 'ceiling_math', 'floor_math', 'ceiling_precise',
+                       'floor_precise'):
+                yield from bemit(fn, x, **flags)
+            for sg in ('n:1/1', 'n:-1/1', 'n:2/1', 'n:1/2', 'n:1/10'):
+                for fn in SIG6 + ('mod',):
+                    yield from bemit(fn, x, sg, **flags)
+    for fn in ROUND4:
+        for d in ('n:0/1', 'n:1/1', 'n:-1/1'):
+            yield from bemit(fn, 'n:0/1', d, negzero=True)
+    for fn in ('round', 'trunc', 'int', 'even', 'odd', 'ceiling_math', 'floor_precise'):
+        yield from bemit(fn, 'n:0/1', negzero=True)
+    for fn in SIG6 + ('mod',):
+        yield from bemit(fn, 'n:0/1', 'n:1/1', negzero=True)
+        yield from bemit(fn, 'n:0/1', 'n:-1/2', negzero=True)
     # --- totality: digit counts far beyond the float's precision, huge and tiny numbers (a number or #NUM!, never an
     #     exception)
     for x in EXTREME_X:
@@ -401,6 +469,10 @@ _SCRUB = [case('rounddown', 'n:31/10', 'n:0/1'), case('roundup', 'n:31/10', 'n:0
 
 def _call(c):
     args = [_py(a) for a in c['args']]
+    if c.get('float'):
+        args[0] = float(args[0])
+    if c.get('negzero'):
+        args[0] = -0.0
     if c.get('via') == 'formula':
         refs = ['A1', 'B1', 'C1'][:len(args)]
         formula = f"={XL_NAME.get(c['fn'], c['fn'].upper())}({','.join(refs)})"
@@ -658,6 +730,15 @@ def oracles(results):
 # ---------------------------------------------------------------------------------------------------------------
 
 def finding_key(c, impl_out, model_out):
+    """narrow classes of listed findings (both at the very edge of the double format)"""
+    if not _all_numeric(c) or len(c['args']) != 1 or not impl_out or not _is_num(impl_out):
+        return None
+    x = _fr(c['args'][0])
+    if c['fn'] == 'odd' and x.denominator == 1 and x % 2 == 0 and abs(x) >= 2 ** 53 and \
+            0 < abs(x) - abs(_fr(impl_out)) <= 4:
+        return 'odd.even-whole-beyond-2^53'
+    if c['fn'] == 'even' and 0 < abs(x) < Fraction(1, 10 ** 323) and impl_out == 'n:0/1':
+        return 'even.smallest-denormal'
     return None
 
 
@@ -690,6 +771,8 @@ def bucket(c):
         return 'sequence'
     if c.get('src') == 'extreme':
         return 'extreme'
+    if c.get('src') == 'boundary':
+        return 'boundary'
     if not _all_numeric(c):
         return 'malformed'
     a = [_fr(t) for t in c['args']]
